@@ -124,8 +124,13 @@ def _run_sym(job):
 
             tb = traceback.extract_tb(ex.__traceback__)
             where = next((f"{os.path.basename(f.filename)}:{f.lineno}" for f in reversed(tb) if "/repo/" in f.filename), "harness")
-            if where == "harness":
+            solverish = type(ex).__module__.split(".")[0] in ("z3", "ctypes") or type(ex).__name__ in ("Z3Exception", "ArgumentError")
+            if where == "harness" or solverish:
+                # the harness (or the solver binding) failed, not the library: inconclusive for this path, never a finding
                 e.notes.append("harness exception: " + "".join(traceback.format_exception_only(type(ex), ex)).strip()[:200] + " @ " + "; ".join(f"{os.path.basename(f.filename)}:{f.lineno}" for f in tb[-3:]))
+                e.stats.unknown += 1
+                e.reach()
+                return
             env.check(False, f"{pid} the operation raised {type(ex).__name__} ({where}: {str(ex)[:80]})")
             e.reach()
 
@@ -360,8 +365,9 @@ def plan(pid, tr, sd):
             if tr == "thorough":
                 hs += [[("bind_existing", k, 1), ("bind_foreign", k + 1, 0), ("alloc_until_growth",)] for k in range(2)]
             for k, h in enumerate(hs):
-                for pl in ([pls[0], pls[4]] if tr == "quick" else [pls[0], pls[4], pls[5]]):
-                    jobs.append((pid, "c08", label, t, gens[0], dict(pl, history=h)))
+                many = t[0] == "array" or sum(1 for _ in wmode.ref_slots(t, sample_value(t, gens[0]))) > 3
+                for pl in ([pls[0], pls[4]] if tr == "quick" or many else [pls[0], pls[4], pls[5]]):
+                    jobs.append((pid, "c08", label, t, gens[0], dict(pl, history=h, max_paths=400)))
     if tr == "thorough":
         # thorough: running out of space in the first chunk is explored (no roomy assumption) for types without
         # references; scenarios with many allocations keep the assumption except in the growth placements
